@@ -467,7 +467,7 @@ class z_loop:
     def on_raise_callee(old, s, a, exc):
         if exc.cls is ZMQError:
             exc.attrs["errno"] = cur().fresh_int("errno")
-        s.trace.append(("_loop-raised", exc.cls))  # ghost: which class the iteration raised (read by run's contract)
+        s.trace.append(("_loop-raised", exc.cls, exc))  # ghost: what the iteration raised (read by run's contract)
         return ()
 
     loops = {0: Loop(invariant=_ready_inv, modifies=("self._did_something",))}
@@ -534,4 +534,17 @@ class z_run:
         if exc.cls is ZMQError:
             yield "ZMQError-EINTR-never-leaves-run (from a callback: KNOWN FINDING C13-KF2)", neg(eq(exc.attrs["errno"], errno.EINTR))
 
-    loops = {0: Loop(invariant=lambda v: True, modifies=("self._did_something",))}
+    def _goes_on(v):
+        """(checked at the end of an iteration of `while True`) the loop goes round again only after an iteration that
+        returned or raised the interrupted-call error: any other exception has ended run() -- 'an exception raised
+        in any callback stops the loop'."""
+        if v.trace_mark_ is None:
+            return True
+        new = v.self.trace[len(v.at_entry.self.trace):]
+        r = True
+        for ev in new:
+            if ev[0] == "_loop-raised":
+                r = both(r, ev[1] is ZMQError and eq(ev[2].attrs["errno"], errno.EINTR))
+        return r
+
+    loops = {0: Loop(invariant=_goes_on, modifies=("self._did_something",))}
